@@ -228,6 +228,28 @@ class Machine:
             return "0o" + format(value, "o")
         return "0b" + format(value, "b") if value < (1 << 16) else "0x" + format(value, "010x")
 
+    @staticmethod
+    def drop_defaults(argv, defaults, key):
+        """An option whose value equals its documented default is left out in about half of the cases (chosen by `key`),
+        so that the default itself is exercised.  defaults: option -> default (str, or int compared by value)."""
+        import hashlib as _h
+
+        out, i = [], 0
+        while i < len(argv):
+            opt = argv[i]
+            if opt in defaults and i + 1 < len(argv):
+                d, v = defaults[opt], argv[i + 1]
+                try:
+                    same = (int(v, 0) == d) if isinstance(d, int) else (v == d)
+                except ValueError:
+                    same = False
+                if same and _h.sha256(repr((key, opt)).encode()).digest()[0] % 2 == 0:
+                    i += 2
+                    continue
+            out.append(opt)
+            i += 1
+        return out
+
     @classmethod
     def odd_for(cls, name):
         """The same, chosen by the name itself (for machines whose slot names carry meaning)."""
